@@ -108,12 +108,31 @@ def run_C08():
         if len(samples) < 2: samples.append({'doc': text, 'ops': ops})
 
 # =================================================================================== C05 / C04 (tree level) / C06 (edit outputs)
+DIRECTED_TREE_DOCS = [      # eighth round: attrpath families that share a prefix of three and more segments, and fresh paths whose tail already exists higher up
+    '{\n  services.openssh.enable = true;\n  services.openssh.settings.PermitRootLogin = "no";\n  services.openssh.settings.PasswordAuthentication = false;\n  networking.hostName = "box";\n}\n',
+    '{\n  a.b.c.d = 1;\n  a.b.c.e = 2;\n  f = 3;\n}\n',
+    '{\n  a.b.c.d.e = 1;\n  a.b.c.d.f = 2;\n  a.b.c.g = 3;\n  a.b.h = 4;\n}\n',
+    '{\n  a.c.d = 1;\n  e = 3;\n}\n', '{\n  a.b.c.x = 1;\n  e = 3;\n}\n',
+    '{ config, pkgs, ... }:\n{\n  services.nginx.enable = true; # keep on\n  services.proxy.port = 80;\n}\n',
+]
+def directed_tree_jobs():
+    for text in DIRECTED_TREE_DOCS:
+        tree, _ = read_tree(text)
+        for k in tree:
+            ks = pstr(k)
+            yield text, [('set', ks, '7')]
+            yield text, [('rm', ks)]
+            yield text, [('set', ks, '7'), ('set', ks, '8'), ('rm', ks)]
+            if len(k) >= 2:
+                yield text, [('set', pstr(k[:-1] + ('fresh',)), '1'), ('rm', pstr(k[:-1] + ('fresh',)))]
+                yield text, [('set', pstr(k[:1] + ('mid',) + k[1:]), '9'), ('set', pstr(k[:1] + ('mid',) + k[1:]), '5')]       # the tail of the new path exists one level up
 def run_tree(check):
-    for it in range(N):
-        text, meta = gen_doc(R, scoped=False, quoted=0.15, tiny=0.12)
+    jobs = [(t, {'shape': 'bare'}, sc) for t, sc in directed_tree_jobs()] + [(None, None, None)] * N
+    for text, meta, script in jobs:
+        if text is None: text, meta = gen_doc(R, scoped=False, quoted=0.15, tiny=0.12)
         src = parse(text); cur = text; ops = []
-        for step in range(R.randint(1, 5)):
-            op, kind = gen_op(cur, step, False)
+        for step in range(len(script) if script else R.randint(1, 5)):
+            op, kind = (script[step], 'directed') if script else gen_op(cur, step, False)
             if meta.get('tiny') and R.random() < 0.5:
                 lp = [k for k in (read_tree(cur) or ({},))[0]]
                 if lp: op, kind = ('rm', pstr(R.choice(lp))), 'existing'
@@ -207,6 +226,10 @@ def run_C09():
     for it in range(N):
         shape = R.choice(['bare', 'lambda_formals', 'lambda_id', 'paren'])
         n = R.randrange(0, 4); layers = gen_layers(R, n)
+        for L in layers:          # eighth round: bindings written in attrpath form inside a let layer (`cfg.a = 1;`), addressed as @cfg.a
+            if R.random() < 0.35:
+                L['cfg.a'] = str(R.randrange(9))
+                if R.random() < 0.5: L['cfg.b'] = '"b"'
         body = R.choice(['{\n  x = 1;\n  y = [\n    1\n  ];\n}', '{\n  x = 1;\n  v = 0;\n  a = "body";\n}', '{\n  inherit w src;\n  x = 1;\n}', '{\n  inherit (pkgs) v;\n  x = 1;\n}'])         # the last two only INHERIT names that scoped edits use: the let layer is still what `@name` addresses
         body_keys = ('v', 'a') if 'v = 0' in body else ()
         jt = [R.choice(['# joint %d\n' % i, '/* j%d */\n' % i]) if R.random() < 0.3 else '' for i in range(n)]
@@ -292,6 +315,7 @@ def run_C19():
             bad('sets on different existing paths give different documents in different orders', doc=text, ops=[['set', p, str(10 + paths.index(p))] for p in p1], other_order=list(p2), pq=r1[1] if r1[0] == 'ok' else r1, qp=r2[1] if r2[0] == 'ok' else r2)
     for it in range(N):
         text, meta = gen_doc(R, scoped=True, maxlayers=2, layer_refs=0.5)
+        if it < 8 * len(DIRECTED_TREE_DOCS): text, meta = DIRECTED_TREE_DOCS[it % len(DIRECTED_TREE_DOCS)], {'shape': 'bare', 'layers': [], 'refs': []}      # deep attrpath families under every law
         if parse(text).rebuild() != text: continue       # canonical documents only
         paths = [p for p in existing_paths(text)]
         tree0, _ = read_tree(text)
